@@ -185,6 +185,133 @@ def _nontrivial(sim):
            len(sim.submitted) > len(sim.granted) or len(sim.grants) >= 2
 
 
+# ------------------------------------------------------------------------------
+# raptor forwarding with its two real threads: the scheduling loop caches or
+# forwards requests for a raptor master while the control subscriber thread
+# registers that master's queue (and flushes the cache).  Whatever the
+# interleaving: once the queue is registered and everything went quiet, every
+# request was forwarded exactly once and the cache is empty.
+#
+def raptor_race(ctx, res, rng, idx):
+    import time
+    import threading as mt
+    from ..agentkit import AgentEnv, SchedulerPair
+    from ..schedsim import task_dict
+    from ..popsim   import Perturb
+    import radical.pilot.agent.scheduler.base as m_sb
+
+    wd = os.path.join(ctx.workdir or os.getcwd(), 'rrace')
+    os.makedirs(wd, exist_ok=True)
+    lay  = {'nodes': 1, 'cores_per_node': 4, 'gpus_per_node': 0, 'lfs': 0,
+            'mem': 0, 'blocked_cores': [], 'blocked_gpus': [],
+            'agent_nodes': 0}
+    case = {'kind': 'raptor-race', 'seed': rng.randint(0, 2 ** 30),
+            'n_bulks': rng.randint(6, 14),
+            'register_after': rng.choice([0, 1, 2, 3, 5]),
+            'ids': rng.choice([['raptor.0'], ['raptor.0', '*'], ['*']])}
+    env = pair = per = None
+    try:
+        env  = AgentEnv(wd, lay, seed=case['seed'], mode='threaded')
+        per  = Perturb(case['seed'], 0.3,
+                       funcs=[m_sb.AgentSchedulingComponent._schedule_incoming,
+                              m_sb.AgentSchedulingComponent.control_cb])
+        crng = __import__('random').Random(case['seed'])
+        pair = SchedulerPair(env, gated=False)
+        pair.start()
+        from ..core import YieldLock
+        pair.child._raptor_lock = YieldLock(pair.child._raptor_lock,
+                                            case['seed'], '_raptor_lock')
+        uids = list()
+        n    = 0
+        reg_msg = {'cmd': 'register_raptor_queue',
+                   'arg': {'name': 'raptor.0', 'queue': 'raptor_q',
+                           'addr': 'mem://raptor/queue'}}
+        reg_when = crng.choice(['before', 'after', 'after', 'after-nap'])
+        for b in range(case['n_bulks']):
+            if b == case['register_after'] and reg_when == 'before':
+                env.publish(rpc.CONTROL_PUBSUB, reg_msg)
+            bulk = list()
+            for _ in range(crng.randint(1, 3)):
+                uid = 'r.%03d' % n; n += 1
+                uids.append(uid)
+                t = {'uid': uid, 'ranks': 1, 'cores_per_rank': 1,
+                     'gpus_per_rank': 0., 'lfs_per_rank': 0, 'mem_per_rank': 0,
+                     'ranks_per_node': None, 'priority': 0, 'tags': {},
+                     'named_env': '', 'app_slots': False,
+                     'raptor_id': crng.choice(case['ids'])}
+                bulk.append(task_dict(t))
+            env.put(rpc.AGENT_SCHEDULING_QUEUE, bulk)
+            pair.intake()
+            if b == case['register_after'] and reg_when != 'before':
+                # the master registers while the loop is busy with this bulk
+                if reg_when == 'after-nap':
+                    time.sleep(crng.choice([0.0002, 0.0005, 0.001]))
+                env.publish(rpc.CONTROL_PUBSUB, reg_msg)
+            time.sleep(crng.choice([0, 0.0005, 0.002, 0.004]))
+
+        # quiescence: the loop is idle when its input queue stays empty and
+        # the counts below do not move any more
+        def counts():
+            q = env.net.queues.get('mem://raptor/queue', {})
+            fw = dict()
+            for ev in env.net.events('put'):
+                if ev['url'] == 'mem://raptor/queue':
+                    for t in ev['payload']:
+                        fw[t['uid']] = fw.get(t['uid'], 0) + 1
+            c = pair.child
+            with c._raptor_lock:
+                cached = {t['uid'] for ts in c._raptor_tasks.values()
+                                   for t in ts}
+            return fw, cached
+        last, stable, t0 = None, 0, time.time()
+        while time.time() - t0 < 60:
+            fw, cached = counts()
+            snap = (sorted(fw.items()), sorted(cached),
+                    pair.child._queue_sched.empty())
+            if snap == last and snap[2]:
+                stable += 1
+                if stable >= 8:
+                    break
+            else:
+                stable, last = 0, snap
+            time.sleep(0.01)
+        else:
+            res.inconc('raptor race: history did not go quiet in 60 s')
+            return
+        res.count('raptor_race_histories')
+        ctx_ = {'case': case, 'forwarded': fw, 'cached': sorted(cached)}
+        if pair.child_error:
+            res.violation('raptor-race/loop-died', repr(pair.child_error), ctx_)
+            return
+        for e in env.net.errors:
+            res.violation('raptor-race/callback-raised', e[2], ctx_)
+            return
+        for uid in uids:
+            res.count('raptor_race_tasks_checked')
+            k = fw.get(uid, 0)
+            if k > 1:
+                res.violation('raptor-task-forwarded-twice', '%s: %d times'
+                              % (uid, k), ctx_)
+                return
+            if k == 0:
+                mech = 'raptor-backlog-not-flushed' if uid in cached \
+                       else 'task-lost'
+                res.violation(mech, '%s was never forwarded although its '
+                              'master is registered (%s)'
+                              % (uid, 'still cached' if uid in cached
+                                      else 'nowhere'), ctx_)
+                return
+    finally:
+        if per:
+            per.stop()
+        if pair:
+            pair.stop()
+        if env:
+            env.close()
+        os.chdir(ctx.workdir or '/')
+        shutil.rmtree(wd, ignore_errors=True)
+
+
 def run(ctx):
     res = Result()
     run_histories(ctx, res, ctx.n(2400, 24000), lambda r: [Progress(r)],
@@ -200,6 +327,14 @@ def run(ctx):
         res.digests.add(digest(case))
         if len(res.violations) > 40:
             break
+    # last: leaves threads of the scheduler pair behind
+    rng = ctx.rng('rrace')
+    for i in range(ctx.n(640, 9600)):
+        raptor_race(ctx, res, rng, i)
+        res.evaluations += 1
+        if len(res.violations) > 30:
+            break
+
     return res
 
 
